@@ -71,6 +71,11 @@ CHECKS = {
          "Every enum within 2 (quick) / 3 (thorough) deviations of a default (1-3 enumerators over name, value incl. 64-bit extremes and duplicates, is_signed, maximum_bits, enum_case on the enum / module / value): underlying signedness and width, every C++ spelling with its exact value, TryToGetEnumFromName (declared names only; other names, kCamel spellings, '', numbers, nullptr rejected), TryToGetNameFromEnum (first declared name; null for undeclared neighbours and range extremes), EnumIsKnown, and an enum field of width maximum_bits writes and reads back every in-range value; enums are packed 25 per header so that one definition influencing another is detected.",
          "Trusted: the value/spelling model in checks/c19.py. Known findings: collide:kCamelCase, signed-enum-narrow.",
          "DESIGN.md section 3, C19"),
+ "C07": ("exploration",
+         "deviation-bounded exhaustive enumeration of accepted programs, identifier shapes, enums, namespaces and imports; each compiled by g++/clang++ -fsyntax-only with a driver that names every member, plus static_asserts of every exposed constant against the IR",
+         "EmbSpace programs (<=1 / <=2 deviations) under c++11/c++17 (thorough: 11/14/17, g++ and clang++), enum traits on and off; all ordered pairs of 11 field names and of 7 type names adjacent to generated identifiers (plus a type nested in itself and a field named like its type); enums from the C19 space; 5 namespace forms with an import whose types, enums, parameters and constants are used through the alias. The driver instantiates every view, accessor, presence test, checked and unchecked read/write, copy/equals, text method, enum helper; every constant (Intrinsic/Max/Min sizes, constant virtuals, enumerators) is static_asserted equal to the value the front end computed.",
+         "Trusted: g++ 12 / clang++ 14. Names rejected by the compiler are only counted. Known findings: collide:has_x, collide:FooView, collide:backing_, collide:kCamelCase, choice-constant-condition-static-assert.",
+         "DESIGN.md section 3, C07"),
 }
 NOT_YET = "check not built yet in this round (planned in DESIGN.md section 3); no claim made"
 
